@@ -10,10 +10,12 @@
 mmd_engine * harness_engine(int i);
 DString * harness_engine_dstr(int i);
 
+static long g_dirty = 0;      /* tokens whose writer-owned fields (out_start, out_len) are not zero */
 static uint64_t walk(token * t, long * n, int depth) {
 	uint64_t h = 1469598103934665603ULL;
 	while (t) {
 		(*n)++;
+		if (t->out_start != 0 || t->out_len != 0) g_dirty++;
 		h = (h ^ t->type) * 1099511628211ULL; h = (h ^ t->start) * 1099511628211ULL; h = (h ^ t->len) * 1099511628211ULL;
 		h ^= (uint64_t)(t->mate != NULL) + 2 * (uint64_t)(t->prev != NULL) + 4 * (uint64_t)(t->tail != NULL);
 		if (t->child && depth < 5000) h = (h * 31) ^ walk(t->child, n, depth + 1);
@@ -28,9 +30,9 @@ int scen_tree(cmd_t * c) {
 	if (scen_tree_dump(c)) return 1;
 	if (!strcmp(n, "e_inspect")) {
 		mmd_engine * e = harness_engine((int)arg_long(&a[0])); if (!e) return 0;
-		long cnt = 0; uint64_t h = walk(mmd_engine_root(e), &cnt, 0);
+		long cnt = 0; g_dirty = 0; uint64_t h = walk(mmd_engine_root(e), &cnt, 0);
 		char b[32]; snprintf(b, sizeof b, "\"%016llx\"", (unsigned long long)h);
-		ev_begin("inspect"); ev_int("eid", arg_long(&a[0])); ev_int("tokens", cnt); ev_raw("sum", b); ev_end();
+		ev_begin("inspect"); ev_int("eid", arg_long(&a[0])); ev_int("tokens", cnt); ev_int("dirty", g_dirty); ev_raw("sum", b); ev_end();
 		return 1;
 	}
 	return 0;
